@@ -14,11 +14,11 @@ import (
 
 // Environment the placeholders in generated configurations refer to (set in the child).
 var childEnv = map[string]string{
-	"VERIF_USER":  "envuser",
-	"VERIF_PASS":  "envpass",
-	"VERIF_CMD_C": "CONNECT",
-	"VERIF_CMD_B": "bind",
-	"VERIF_CMD_A": "Associate",
+	"VERIF_USER":   "envuser",
+	"VERIF_PASS":   "envpass",
+	"VERIF_CMD_C":  "CONNECT",
+	"VERIF_CMD_B":  "bind",
+	"VERIF_CMD_A":  "Associate",
 	"VERIF_BINDIP": "127.0.0.1",
 	// VERIF_EMPTY is deliberately unset
 }
@@ -31,12 +31,12 @@ type CredEntry struct {
 
 // CfgSpec is one generated handler configuration together with its model.
 type CfgSpec struct {
-	CmdLabel  string   `json:"cmd_label"`
-	CredLabel string   `json:"cred_label"`
-	Via       string   `json:"via"` // "json" or "caddyfile"
-	JSON      string   `json:"json"`
-	Caddyfile string   `json:"caddyfile,omitempty"`
-	Model     Model    `json:"model"`
+	CmdLabel  string `json:"cmd_label"`
+	CredLabel string `json:"cred_label"`
+	Via       string `json:"via"` // "json" or "caddyfile"
+	JSON      string `json:"json"`
+	Caddyfile string `json:"caddyfile,omitempty"`
+	Model     Model  `json:"model"`
 	// GenPairs are the pairs the session generator draws "right" credentials from (the model's, unless a mutant falsified the model).
 	GenPairs []Pair `json:"-"`
 }
